@@ -363,9 +363,20 @@ def run(ctx, rep):
         ok = False
         why = "returns `%s`" % A.src(v)
         if isinstance(inner, ast.Name):
-            defs = rdp.at(r, inner.id)
-            ok = bool(defs) and all(d != "param" and isinstance(d.ast, ast.Assign) and any(
-                isinstance(c.func, ast.Attribute) and c.func.attr == "poll" for c in A.calls(d.ast.value)) for d in defs)
+            def from_poll(node, name, depth=0):
+                defs = rdp.at(node, name)
+                if not defs or depth > 4:
+                    return False
+                for d in defs:
+                    if d == "param" or not isinstance(d.ast, ast.Assign):
+                        return False
+                    if isinstance(d.ast.value, ast.Name):
+                        if not from_poll(d, d.ast.value.id, depth + 1):
+                            return False
+                    elif not any(isinstance(c.func, ast.Attribute) and c.func.attr == "poll" for c in A.calls(d.ast.value)):
+                        return False
+                return True
+            ok = from_poll(r, inner.id)
             why = "truthiness of the poll result list"
         elif isinstance(inner, ast.Compare) and any("len(" in A.src(x) for x in [inner.left] + inner.comparators):
             ok = True
